@@ -13,5 +13,6 @@ CFG = dict(
              "guards of the grammar the generators stay inside (each violated by the unchanged tree, see witnesses): one scalar type inside a recognised group; ASCII values exactly representable in float32; no 8-bit unrecognised scalar in ASCII; at least one face when a face element is declared; no uchar s/t pair (vector2.DivByConstant multiplies by 1/255: 1 ulp off b/255)",
              "SpecFile fixes the element order vertex, face and has no other elements (the reader ignores header element order and reads vertex data first); face element holds list properties only",
              "non-ASCII white space (U+0085, U+00A0 …) in header lines, tokens longer than bufio.Scanner's 64 KiB limit: not modelled"],
+    rule="one evaluation = one request line answered by both the Go implementation and the Lean model/oracle; every generated file is additionally loaded through every public entry point / reader type (…holds.entrypoints_agree) and a handful of files per run cross the 4096-record / 4096-byte / 64 KiB boundaries with values tagged by vertex number",
     assumptions=[],
 )
